@@ -61,6 +61,10 @@ def cases(tier, seed):
             if init not in ("product", "ghz", "random"):
                 continue
         yield {"family": "history", "N": n, "dim": dim, "init": init, "precision": p, "cap": cap, "depth": depth, "seed": seed}
+    if tier == "quick":
+        # four sites: the smallest chain with a middle bond that the reduced QR of a sweep does not shrink (unused channels survive there)
+        for dim in (2, 3):
+            yield {"family": "history", "N": 4, "dim": dim, "init": "ghz_padded", "precision": 1e-8, "cap": 64, "depth": 1, "seed": seed}
     for n in c["nsc"]:
         for b in BASES:
             if b == "rgx" and n > 3:
@@ -102,9 +106,9 @@ def _amplitudes(case):
                 ref = _ref_vec(n, d, b)
                 ref = ref / np.linalg.norm(ref)
                 got = mps_to_vec(m.factors)
-                if np.abs(got - ref).max() > 1e-9:
+                if not np.abs(got - ref).max() <= 1e-9:  # NaN fails
                     return count, ("MPS.from_state_amplitudes", f"basis {BASES[b]} amplitudes {d}: got {np.round(got, 6).tolist()} expected {np.round(ref, 6).tolist()}")
-                if abs(float(m.norm()) - 1) > 1e-9:
+                if not abs(float(m.norm()) - 1) <= 1e-9:  # NaN fails
                     return count, ("MPS.from_state_amplitudes-norm", f"basis {BASES[b]} amplitudes {d}: norm {float(m.norm())}")
     return count, None
 
@@ -172,15 +176,15 @@ def _operators(case):
             ref = sum(c * ref_term(tt) for c, tt in full)
             calls += 3
             got = mpo_to_mat(op.factors)
-            if np.abs(got - ref).max() > 1e-12:
+            if not np.abs(got - ref).max() <= 1e-12:  # NaN fails
                 return calls, ("MPO.from_operator_repr", f"basis {BASES[b]} N={n} operations {full}: MPO differs from the Kronecker construction")
             ex = complex(op.expect(state))
-            if abs(ex - np.vdot(v, ref @ v)) > 1e-10:
+            if not abs(ex - np.vdot(v, ref @ v)) <= 1e-10:  # NaN fails
                 return calls, ("MPO.expect", f"basis {BASES[b]} N={n} operations {full}: {ex} vs {np.vdot(v, ref @ v)}")
             w = mps_to_vec(op.apply_to(state).factors)
             if np.linalg.norm(w - ref @ v) > 1e-9:
                 return calls, ("MPO.apply_to", f"basis {BASES[b]} N={n} operations {full}")
-            if np.abs(mps_to_vec(state.factors) - v).max() > 1e-13:
+            if not np.abs(mps_to_vec(state.factors) - v).max() <= 1e-13:  # NaN fails
                 return calls, ("operand-mutated-by-MPO.apply_to", f"basis {BASES[b]} N={n} operations {full}")
         built.append((build([(1.0, t)]), ref_term(t)))
     step = max(1, len(built) // 12)
@@ -189,13 +193,13 @@ def _operators(case):
             o2, r2 = built[j]
             calls += 3
             pr = mpo_to_mat((o1 @ o2).factors)
-            if np.abs(pr - r1 @ r2).max() > 1e-4 * max(1.0, np.abs(r1 @ r2).max()):
+            if not np.abs(pr - r1 @ r2).max() <= 1e-4 * max(1.0, np.abs(r1 @ r2).max()):  # NaN fails
                 return calls, ("MPO.matmul", f"basis {BASES[b]} N={n} {terms[i]} @ {terms[j]}: max deviation {np.abs(pr - r1 @ r2).max():.2e}")
             sm = mpo_to_mat((o1 + o2).factors)
-            if np.abs(sm - (r1 + r2)).max() > 1e-12:
+            if not np.abs(sm - (r1 + r2)).max() <= 1e-12:  # NaN fails
                 return calls, ("MPO.add", f"basis {BASES[b]} N={n} {terms[i]} + {terms[j]}")
             sc = mpo_to_mat(((2 - 1j) * o1).factors)
-            if np.abs(sc - (2 - 1j) * r1).max() > 1e-12:
+            if not np.abs(sc - (2 - 1j) * r1).max() <= 1e-12:  # NaN fails
                 return calls, ("MPO.rmul", f"basis {BASES[b]} N={n} {terms[i]}")
             if np.abs(mpo_to_mat(o1.factors) - r1).max() > 1e-12 or np.abs(mpo_to_mat(o2.factors) - r2).max() > 1e-12:
                 return calls, ("operand-mutated-by-MPO-algebra", f"basis {BASES[b]} N={n} {terms[i]} {terms[j]}")
